@@ -174,25 +174,36 @@ func regexpNext(sb *strings.Builder, sl *stringLexer, mode Mode) error {
 			if sl.peekNext() != '(' {
 				break
 			}
-			start := sl.i - 1       // position of the operator
-			sb.WriteRune(sl.next()) // (
+			start := sl.i - 1 // position of the operator
+			// Build the group separately, as it is only a group if it is closed.
+			var gsb strings.Builder
+			gsb.WriteRune(sl.next()) // (
+			closed := false
 		nestedLoop:
 			for {
 				switch sl.peekNext() {
 				case ')':
+					closed = true
 					break nestedLoop
 				case '|':
 					// extended operators support a list of "or" separated expressions
-					sb.WriteRune(sl.next())
+					gsb.WriteRune(sl.next())
 					continue
 				}
-				if err := regexpNext(sb, sl, mode); err == io.EOF {
-					break
+				if err := regexpNext(&gsb, sl, mode); err == io.EOF {
+					break nestedLoop
 				} else if err != nil {
 					return err
 				}
 			}
-			sb.WriteRune(sl.next()) // )
+			if !closed {
+				// Like Bash, without a closing ")" the operator and
+				// the rest of the pattern are matched as a literal string.
+				sb.WriteString(regexp.QuoteMeta(sl.s[start:]))
+				return nil
+			}
+			gsb.WriteRune(sl.next()) // )
+			sb.WriteString(gsb.String())
 			if op == '!' {
 				return &NegExtGlobError{Groups: []NegExtGlobGroup{{Start: start, End: sl.i}}}
 			}
